@@ -7,7 +7,7 @@ import random
 from .. import boot  # noqa: F401
 from .. import world as W
 from ..corpus import Session, corpus, corpus_tree, corpus_users, payload_bytes
-from ..runner import sig_of
+from ..runner import sig_of, rearm
 from ..spyfs import Fault
 
 PROPERTY = "C13"
@@ -172,12 +172,13 @@ async def execute(net, hyg, plan):
 
 
 def run_plan(plan):
+    rearm()
     async def main(net, hyg):
         return await execute(net, hyg, plan)
     res, info = W.run(main, seed=plan.get("seed", 0), net_kwargs=dict(mss=plan.get("mss", 1460), latency=0.001))
     if res is None:
         return W.failed(info)
-    le = [e for e in info["hygiene"].loop_errors]
+    le = [e for e in info["hygiene"].serious_loop_errors()]
     if le:
         res["violations"].append({"key": f"exception-reached-loop:{res.get('site')}", "msg": f"{le[:2]}"})
     return res
